@@ -21,8 +21,11 @@ def run(chk):
             # integer-width boundaries (pown), the result batch of a binary function with one shared operand (dense cross entropy)
             n = 3 if chk.tier == "quick" else 40
             progs = [f.pown_program(chk.rng) for _ in range(n)] + [f.sce_program(chk.rng, B) for B in (2, 3) for _ in range(n)]
+            progs += [f.conv_program(chk.rng) for _ in range(n)]      # anisotropic padding / stride / dilation, each also swapped
             found, dis = f.run_programs(chk, progs)
             f.report_found(chk, found, dis, prop="C02", keyprefix="funcs")
     _compose.finish(chk)
+    from props import C20 as _c20
+    _c20.run_eq_leg(chk, lambda name: "ApplyNode" in name or "ApplyTensor" in name)    # the C wrappers of every function (Node and Tensor forms)
     chk.trusted += ["'within a few float32 ulps' is measured by the correspondence run, not proved: theorems are over exact fields (why the stabilised forms cannot overflow, and that they equal the definitions over the reals)",
                     "loop kernels are hand-modelled (Model/KernelsMove.lean, Model/KernelsArith.lean) and tied to both backends by the correspondence run; elementwise formulas are translated from the sources (translate/elementwise.py)"]
